@@ -101,16 +101,20 @@ let history id =
   | Some f ->
     let n = next_int () in
     let ops = times n parse_op in
+    let initmode = (match !toks with "MODE" :: m :: _ -> m | _ -> "-") in
     (match x_open_store f with
      | None -> Printf.printf "%s LOADERR\n" id
      | Some st0 ->
        let st = ref st0 in
-       let res = ref [] and files = ref [] in
+       let res = ref [] and files = ref [] and saved = ref false in
        List.iter (fun oh ->
+           if x_saves !st (fst oh) then saved := true;
            let (st', r) = step_hinted !st oh in
            st := st'; res := r :: !res; files := md5 (canon_doc st'.st_file) :: !files) ops;
-       Printf.printf "%s RES %s FILES %s FINAL %s\n" id (String.concat " " (List.rev !res))
-         (String.concat " " (List.rev !files)) (canon_doc !st.st_file))
+       (* the mode of the config file: 0600 once anything was saved (Model/CredSave.v mode_file) *)
+       let mode = if !saved then Printf.sprintf "%o" (int_of_n mode_file) else initmode in
+       Printf.printf "%s RES %s FILES %s FINAL %s MODE %s\n" id (String.concat " " (List.rev !res))
+         (String.concat " " (List.rev !files)) (canon_doc !st.st_file) mode)
 
 (* crash cut: paths are symbolic D (dir), P (config), T (temp) *)
 let p_dir = str_of_hex "44" and p_cfg = str_of_hex "50" and p_tmp = str_of_hex "54"
